@@ -30,6 +30,11 @@ def ops():
         for k in SIZES:
             for off in (0, 200):
                 out.append((kind, k, off))
+    for k in (2, 3):
+        out.append(('scu_dup', k, 0))       # a list that names its first class twice
+        out.append(('scp_dup', k, 200))
+    for mask in (1, 2, 6):
+        out.append(('set_ts', mask, 0))     # supported_ts (public attribute) reassigned between add_* calls
     return out
 
 
@@ -39,7 +44,7 @@ def domain(tier):
 
 def cases(tier, seed):
     O = ops()
-    small = [o for o in O if o[1] <= 3]
+    small = [o for o in O if o[1] <= 3 or o[0] == 'set_ts']
     variants = [{'ts': 7, 'maxlen': 65536, 'cred': 'none'}]
     progs = [[o] for o in O] + [[a, b] for a in O for b in O] + [[a, b, c] for a in small for b in small for c in small]
     for n, prog in enumerate(progs):
@@ -79,7 +84,7 @@ def run_case(case):
     viol = []
     prog = [tuple(o) for o in case['prog']]
     tslist = [t for i, t in enumerate(TS_ALL) if case['ts'] >> i & 1]
-    has_scp = any(o[0] == 'scp' for o in prog)
+    has_scp = any(o[0].startswith('scp') for o in prog)
     if has_scp:
         ae = assoc.make_ae('LOCAL-AE', tslist, case['maxlen'])
     else:
@@ -87,8 +92,19 @@ def run_case(case):
     configured = []       # distinct classes in order of first configuration
     as_scu = set()
     try:
+        ts_at_add = {}
+        cur_ts = list(tslist)
         for kind, k, off in prog:
+            if kind == 'set_ts':
+                cur_ts = [t for i, t in enumerate(TS_ALL) if k >> i & 1]
+                ae.supported_ts = frozenset(cur_ts)
+                continue
             lst = [cls(off + i) for i in range(k)]
+            if kind.endswith('_dup'):
+                lst = lst + [lst[0]]
+                kind = kind[:3]
+            for c in lst:
+                ts_at_add.setdefault(c, list(cur_ts))
             if kind == 'scu':
                 ae.add_scu(assoc.Recorder('scu', lst))
                 as_scu.update(lst)
@@ -171,8 +187,10 @@ def run_case(case):
                              % (len(sops), len(configured), dup[:3], missing[:3], where)))
             for i in pcs_obj:
                 got_ts = sorted(str(t.name) for t in i.ts_sub_items)
-                if got_ts != sorted(tslist):
-                    viol.append(('c11:proposal-ts', 'context %d proposes transfer syntaxes %r, configured %r (%s)' % (i.context_id, got_ts, tslist, where)))
+                want_ts = sorted(ts_at_add.get(str(i.abs_sub_item.name), tslist))
+                if got_ts != want_ts:
+                    viol.append(('c11:proposal-ts', 'context %d (%s) proposes transfer syntaxes %r, configured for it %r (%s)' % (
+                        i.context_id, i.abs_sub_item.name, got_ts, want_ts, where)))
                     break
             try:
                 tree = pdugen.to_tree(type(pdu_obj).decode(pdu_obj.encode()))
